@@ -3,5 +3,7 @@ CONSTANTS
   Pool = "c"
   MaxActions = 1
   MaxOps = 2
-INVARIANTS RTypeOK OnlyCarriable SubsConsistent GetSeesLastSet DeliveredIffSubscribed Export
+  MaxPick = 2
+  Layouts = {"aux-first", "aux-last"}
+INVARIANTS RTypeOK ItfTheorems SubsConsistent GetSeesLastSet GetDenotesLastSet DeliveredIffSubscribed RefsDenoteSent ExecutedOnce ImplHoldsServiceIds ClientRefsResolvable ForwardersSound HandlesFresh Export
 CHECK_DEADLOCK FALSE
